@@ -842,12 +842,23 @@ def gen_deny_sweep(item, rng, tier):
         # fetched there); pointers at and just above 0, so that descending transfers end exactly at address 0 and ascending ones start there
         mpu[DREG + 1] = (1 | 4 << 1, 0, rng.getrandbits(6))
     sys = dict(G.mpu_sys(mpu, nu=rng.getrandbits(1)))
-    sys['sctlr'] = G.sctlr_value(m=1, a=0, u=1, te=thumb, v=int(nullguard), br=1, ee=0)
+    # (ARMv6 configurations half of the time in legacy alignment mode, SCTLR.U = 0: an unaligned access is made at the aligned-down address)
+    sys['sctlr'] = G.sctlr_value(m=1, a=0, u=0 if (cfg['arch_version'] == 6 and rng.random() < 0.5) else 1, te=thumb, v=int(nullguard), br=1, ee=0)
     regs = {'cpsr': G.random_cpsr(rng, cfg, mode=mode, thumb=thumb, e=0) | 0xC0, 'pc': G.CODE, 'sys': sys, 'R': G.random_regfile(rng, cfg), 'spsr': G.random_spsrs(rng, cfg, valid=True)}
     # pointers around the lower edge of the denied block: word-aligned, so that multi-word transfers start allowed and run into it, or start inside it
     ptrs = [SW_DENY + 4 * d for d in (-8, -4, -3, -2, -1, 0, 0, 1, 2, 4)] + [SW_DENY + 0x7F8, SW_DENY + 0x7FC, 4, 8, 0x10, SW_PRIV + 0x10, SW_PRIV + 0x41]
+    if not (sys['sctlr'] >> 22) & 1:
+        ptrs = ptrs + [SW_PRIV + 1, SW_PRIV + 0x42, SW_PRIV + 0x83, SW_PRIV + 0x21, SW_DENY + 3]
     if nullguard:
         ptrs = ptrs[:12] + [0, 0, 4, 8, 0xC, 0x1C, 0x20, 0x24, 0x3C, 1, 0xFFFFFFFC]
+    words = list(src['words'])
+    if not (sys['sctlr'] >> 22) & 1 and not thumb:
+        # legacy alignment mode: a sixth of the words replaced by the unprivileged load/store forms (word and halfword), which the sweep itself meets rarely
+        for i in range(0, len(words), 6):
+            rn_, rt_ = rng.randrange(0, 13), rng.randrange(0, 13)
+            words[i] = rng.choice([0xE4A00000, 0xE4B00000, 0xE4200000, 0xE4300000]) | rn_ << 16 | rt_ << 12 | rng.choice([0, 4, 1]) if rng.random() < 0.7 else \
+                rng.choice([0xE0E000B0, 0xE0F000B0]) | rn_ << 16 | rt_ << 12 | rng.choice([0, 2])
+        src = dict(src, words=words)
     force = {'it': 0, 'ctx': 9, 'thumb': thumb, 'ptr_regs': ptrs}
     core = {'config': cfg, 'devices': devices, 'regs': regs, 'words': src['words'], 'force': force, 'no_poke': []}
     return {'scenario': 'deny_sweep', 'nullguard': nullguard, 'cores': [core], 'events': [], 'max_ticks': len(src['words']) + 2, 'stop_at_done': False, 'thumb': thumb}
